@@ -161,7 +161,7 @@ def gen_envs(argspecs, seed=0, limit=2600):
 def find_witness(actual, expected, argspecs, names=None, lane_bits=None, seed=0, env_ok=None):
     """a point where the two closed forms differ, or None"""
     for args in gen_envs(argspecs, seed):
-        env = {"args": args}
+        env = {"args": args, "mem": lambda a: ((a * 131) ^ (a >> 7) ^ 0x5B) & 0xFF}
         if env_ok is not None:
             ok = env_ok(args, names)
             if ok is None:
@@ -200,7 +200,7 @@ def find_witness(actual, expected, argspecs, names=None, lane_bits=None, seed=0,
 
 def interpreted(t):
     """True when every operator in t has an exact evaluation in term.ev"""
-    OK = {"const", "arg", "concat", "slice", "rep", "not", "and", "or", "xor", "add", "mul", "sub",
+    OK = {"const", "arg", "mem", "concat", "slice", "rep", "not", "and", "or", "xor", "add", "mul", "sub",
           "neg", "icmp", "fcmp", "select", "popsum", "satus", "satss", "fadd", "fsub", "fmul", "fdiv", "call:llvm.sqrt", "call:llvm.fabs", "shlsat", "lshrsat", "ashrsat", "shl", "lshr", "ashr",
           "fshl", "fshr", "call:llvm.ctpop", "call:llvm.ctlz", "call:llvm.cttz", "call:llvm.bswap",
           "call:llvm.bitreverse", "call:llvm.abs", "call:llvm.umin", "call:llvm.umax",
